@@ -238,3 +238,48 @@ def _present_N(h, t, keys):
 
 for _n, _k in AGGS.items():
     _np_agg(_n, _k)
+
+
+@unit("C13", "nonparametric.two_estimands_one_model", fns=[f"{NP}.get_unit_prediction_intervals", f"{CO}.get_unit_prediction_interval_bounds"])
+def two_estimands(h):
+    """the client calls get_unit_prediction_intervals for every estimand on ONE model object: the interval of the
+    second estimand must be built from ITS OWN correction (no state carried over from the first call)"""
+    t = Three(h, "turnout", extra=("residuals_turnout", "residuals_dem", "f1"), int_extra=("results_dem", "last_election_results_dem"))
+    h.contracts[FEAT] = theory_ext.featurizer_contract
+    from pyvc import theory_np
+
+    theory_np.OPAQUE_ROUND[0] = True  # only "same argument, same rounded value" is needed here
+    corr = []
+
+    def popcorr(interp, self, conformalization_data, scores, correction_quantile, estimand):
+        c = z3.Real(f"population_correction_{estimand}")
+        corr.append((estimand, c))
+        return V(c)
+
+    h.contracts[f"{NP}._compute_population_correction"] = popcorr
+    alpha = h.real("alpha")
+    h.requires("alpha_open", 0 < alpha, alpha < 1)
+    self = model(h, NP, features=["f1"])
+    from pyvc.theory_np import SeqLen
+
+    self.attrs["n_train"] = SeqLen(t.rep.axis)
+    kind, m = h.call_method(self, "get_minimum_reporting_units", alpha)
+    h.requires("gate", t.rep.axis.n >= m.t)
+    h.forall_rows(t.root, z3.And(t.nonrep.col("last_election_results_dem").t >= 1, t.nonrep.col("results_dem").t >= 0))
+    out = {}
+    for e in ("turnout", "dem"):
+        n0 = len(getattr(h.interp, "qr_models", []))
+        kind, res = h.call_method(self, "get_unit_prediction_intervals", t.rep, t.nonrep, alpha, e)
+        if kind == "raise":
+            return h.fail(f"no_raise.{e}", f"raised {res}")
+        out[e] = (res, h.interp.qr_models[n0:])
+    rows = z3.And(*t.nonrep.axis.facts())
+    for e in ("turnout", "dem"):
+        res, qs = out[e]
+        c = dict(corr)[e]
+        last = t.nonrep.col(f"last_election_results_{e}").t
+        rs = t.nonrep.col(f"results_{e}").t
+        lraw, uraw = qs[0].predict(_holdout(h, t)), qs[1].predict(_holdout(h, t))
+        want_l = z3.If((lraw.t - c) * last + last >= rs, (lraw.t - c) * last + last, rs)
+        want_u = z3.If((uraw.t + c) * last + last >= rs, (uraw.t + c) * last + last, rs)
+        h.ensures(f"own_correction.{e}", z3.Implies(rows, z3.And(res.lower.t == theory_np.RND(want_l, z3.IntVal(0)), res.upper.t == theory_np.RND(want_u, z3.IntVal(0)))))
